@@ -92,6 +92,13 @@ type UDP struct {
 	// server) instead of plain sockets.
 	ViaManager bool
 	mgr        service.ListenerManager
+	// Addr: the proxy address (default ProxyUDP); "[::]:9000" gives a dual-stack socket that
+	// serves IPv4 and IPv6 clients
+	Addr string
+	// KeepOther (with ViaManager): a second handle on the proxy address is held open by somebody
+	// else (the next generation of a reload), so closing the handler's handle does not close the socket
+	KeepOther bool
+	other     net.PacketConn
 	extraTh []*vrt.Thread
 }
 
@@ -109,14 +116,19 @@ func (w *UDP) Start() {
 	if w.ViaManager {
 		// the way the server obtains its sockets: a handle on the listener manager's shared socket
 		w.mgr = service.NewListenerManager()
-		pc, err = w.mgr.ListenPacket(ProxyUDP)
+		pc, err = w.mgr.ListenPacket(w.addr())
 	} else {
-		pc, err = vnet.ListenPacket("udp", ProxyUDP)
+		pc, err = vnet.ListenPacket("udp", w.addr())
 	}
 	if err != nil {
 		panic(err)
 	}
 	w.PC = pc
+	if w.ViaManager && w.KeepOther {
+		if w.other, err = w.mgr.ListenPacket(w.addr()); err != nil {
+			panic(err)
+		}
+	}
 	w.handle = vrt.Spawn("udp-handle", func() {
 		w.H.Handle(pc)
 		w.Returned = true
@@ -148,6 +160,21 @@ func (w *UDP) Stop() {
 	}
 	vrt.Join(w.handle)
 	vrt.Join(w.extraTh...)
+}
+
+func (w *UDP) addr() string {
+	if w.Addr != "" {
+		return w.Addr
+	}
+	return ProxyUDP
+}
+
+// CloseOther releases the second handle (KeepOther).
+func (w *UDP) CloseOther() {
+	if w.other != nil {
+		w.other.Close()
+		w.other = nil
+	}
 }
 
 // Sock returns (binding on first use) the environment socket at addr.
